@@ -202,7 +202,8 @@ LEVEL_TEXT = ("Theorems in coq/theories/Properties/C19.v over a small-step model
               "reader's fan-out / the method-return broadcast channel (C19/Model.v, C19/Broadcast.v), any number of callers, every "
               "scheduler, every peer that respects causality: a completed call holds a return/error whose reply_serial is its own serial "
               "and that answers no other call (C19_match); it completes at most once (C19_once); because the receiver is activated "
-              "before the send, no answer is ever behind a waiting caller's cursor, and a caller that keeps taking items reaches the "
+              "before the send, no answer is ever behind the cursor of a caller whose call is on the wire — waiting, or still inside send() "
+              "(bytes out, send_message not yet returned) —, and a caller that keeps taking items reaches the "
               "first answer (C19_sees_nothing_missed, C19_sees); NoReplyExpected calls complete at the send (C19_noreply); once the "
               "reader has failed every waiting caller completes within as many polls as it has unread items plus one (C19_fail); with a "
               "method timeout the timer completes ANY waiting call with TimedOut — full strength since fix 3eb91a8f made "
